@@ -7,6 +7,13 @@ EXTENDS ProfTree, Json
 CONSTANTS ExportMod, ExportSeed
 MCFn2 == <<"f1", "f2">>
 MCFn3 == <<"f1", "f2", "f3">>
+\* stretch plans (ProfTree!StretchHom / StretchLayout): r = frames per level, m = cycle length per level, flat = always recurse
+MCNoPlans == {}
+MCPlans3  == {[r |-> <<2, 1, 1>>, m |-> <<1, 1, 1>>, flat |-> {}],              \* recursion at the root level
+              [r |-> <<1, 3, 2>>, m |-> <<1, 3, 1>>, flat |-> {}],              \* distinct functions in the middle, recursion at the leaf
+              [r |-> <<2, 2, 3>>, m |-> <<2, 2, 2>>, flat |-> {"f2"}]}          \* cycles; f2 has one name only
+MCPlans5  == {[r |-> <<2, 1, 1, 1, 1>>, m |-> <<2, 1, 1, 1, 1>>, flat |-> {}],
+              [r |-> <<1, 1, 2, 1, 3>>, m |-> <<1, 1, 1, 1, 2>>, flat |-> {"f1"}]}
 
 RECURSIVE BagSeqOf(_, _)
 BagSeqOf(b, S) == IF S = {} THEN <<>>
@@ -23,6 +30,7 @@ LayoutOut(rt) == [levels |-> Levels(rt), total |-> RTTotal(rt), maxself |-> RTMa
 
 CaseRec ==
     [k       |-> K,
+     cap     |-> LevelCap,
      profs   |-> [i \in 1..N |-> BagSeq(profs[i])],
      trees   |-> [i \in 1..N |-> NodeSeq(stored[i])],
      sums    |-> [i \in 1..N |-> SampleSum(profs[i])],
